@@ -91,6 +91,22 @@ fn tree_names(nmax: u64) -> &'static HashMap<Vec<u8>, (&'static str, u64)> {
     })
 }
 
+/// the funding transaction of the "ready-onchain" fixture (its txid is the channel's funding outpoint)
+pub fn onchain_funding_tx() -> bitcoin::Transaction {
+    use bitcoin::{absolute::LockTime, transaction::Version, Amount, ScriptBuf, Sequence, TxIn, TxOut, Witness};
+    bitcoin::Transaction {
+        version: Version::TWO,
+        lock_time: LockTime::ZERO,
+        input: vec![TxIn {
+            previous_output: bitcoin::OutPoint { txid: { use bitcoin::hashes::Hash; bitcoin::Txid::from_slice(&[9u8; 32]).unwrap() }, vout: 1 },
+            script_sig: ScriptBuf::new(),
+            sequence: Sequence(0xFFFF_FFFD),
+            witness: Witness::default(),
+        }],
+        output: vec![TxOut { value: Amount::from_sat(CHANNEL_VALUE), script_pubkey: ScriptBuf::from_bytes(vec![0x51, 0x01, 0x01]) }],
+    }
+}
+
 pub struct Ctx {
     pub fx: NodeFx,
     pub id: ChannelId,
@@ -104,7 +120,15 @@ pub struct Ctx {
 }
 
 impl Ctx {
+    /// phase "ready" / "stub"; "ready-onchain" = a ready channel on a node whose validator stack is the one vlsd
+    /// installs (OnchainValidatorFactory wrapping the simple validator), with the funding transaction confirmed
+    /// deeply enough for the on-chain validator to allow commitments beyond the initial one
     pub fn new(phase: &str, nmax: u64) -> Ctx {
+        if phase.ends_with("-onchain") {
+            use lightning_signer::policy::onchain_validator::OnchainValidatorFactory;
+            let fx = NodeFx::new_with_factory(Network::Regtest, std::sync::Arc::new(OnchainValidatorFactory::new()));
+            return Ctx::with_fx(fx, phase, nmax);
+        }
         Ctx::with_fx(NodeFx::new(Network::Regtest, None), phase, nmax)
     }
 
@@ -116,15 +140,36 @@ impl Ctx {
     pub fn with_fx_opts(fx: NodeFx, phase: &str, nmax: u64, precompute: bool) -> Ctx {
         let mut ctx = Ctx { fx, id: ChannelId::new(&[0u8; 32]), cc: None, nmax, sigs: HashMap::new(), raw: HashMap::new() };
         let probe = NodeFx { node: ctx.fx.node.clone(), store: ctx.fx.store.clone(), clock: ctx.fx.clock.clone(),
-                             policy: None, network: ctx.fx.network, cloud: ctx.fx.cloud.clone() };
-        let phase = phase.to_string();
+                             policy: None, network: ctx.fx.network, cloud: ctx.fx.cloud.clone(), factory: ctx.fx.factory.clone() };
+        let onchain = phase.ends_with("-onchain");
+        let phase = phase.trim_end_matches("-onchain").to_string();
         let ((), _) = probe.tx(|| {
             let id = new_stub(&ctx.fx, 1);
             ctx.id = id.clone();
             if phase == "ready" {
-                let setup = test_setup(CHANNEL_VALUE, PUSH_MSAT, CommitmentType::StaticRemoteKey, 2);
-                let cc = ready_channel(&ctx.fx, &id, setup);
+                let mut setup = test_setup(CHANNEL_VALUE, PUSH_MSAT, CommitmentType::StaticRemoteKey, 2);
+                let ftx = onchain_funding_tx();
+                if onchain {
+                    setup.funding_outpoint = bitcoin::OutPoint { txid: ftx.compute_txid(), vout: 0 };
+                }
+                let cc = ready_channel(&ctx.fx, &id, setup.clone());
                 ctx.cc = Some(cc);
+                if onchain {
+                    // confirm the funding transaction and bury it; the tracker entry (which holds the monitor
+                    // state) is written to the store so that a restarted signer sees the same chain
+                    use lightning_signer::persist::Persist;
+                    let monitor = {
+                        let tracker = ctx.fx.node.get_tracker();
+                        tracker.listeners.get(&setup.funding_outpoint).map(|(m, _)| m.clone()).expect("monitor")
+                    };
+                    for b in 1..=10u8 {
+                        let txs = if b == 1 { vec![ftx.clone()] } else { vec![] };
+                        let h = { use bitcoin::hashes::Hash; bitcoin::BlockHash::from_slice(&[b; 32]).unwrap() };
+                        { use lightning_signer::chain::tracker::ChainListener; monitor.on_add_block(&txs, &h); }
+                    }
+                    let tracker = ctx.fx.node.get_tracker();
+                    ctx.fx.store.update_tracker(&ctx.fx.node.get_id(), &tracker).expect("update_tracker");
+                }
                 if precompute {
                     ctx.precompute_sigs();
                 }
